@@ -30,3 +30,12 @@ try:
     from wire_patterns import *  # noqa: F401,F403  (patterns of the wire engine)
 except ImportError:
     pass
+
+try:
+    from idsets_pipe import c16_idset_empty_client_entry, c16_idmap_duplicate_attrs, c16_idmap_encoding_arc_identity  # noqa: F401
+except ImportError:
+    pass
+try:
+    from quote_patterns import *  # noqa: F401,F403
+except ImportError:
+    pass
